@@ -481,10 +481,23 @@ def k4_key_normal_form(ctx, K: Kinds) -> None:
     else:
         ctx.violation("K4", are.node, "RuleDBBase.are_equivalent must be equivdb.equivalent(label, other)", construct="RuleDBBase.are_equivalent")
     # ... and cycles connected first
+    k4c_connect_before_collapse(ctx)
+
+
+def k4c_connect_before_collapse(ctx) -> None:
+    """rules_up_to_equivalence connects the one-way cycles on *every* call, before it looks at
+    any rule: a cycle can be closed by a two-way edge or by a merge, not only by a new
+    one-way edge, so no flag kept by the caller can tell that the search is unnecessary."""
+    P = ctx.P
+    m = P.need_method("RuleDBBase", "rules_up_to_equivalence", own=True)
+    ctx.analysed(m)
     calls = [c for c in walk_local(m.node) if isinstance(c, ast.Call) and norm(c.func).endswith("equivdb.connect_cycles")]
     loops = [n for n in walk_local(m.node) if isinstance(n, ast.For)]
-    if calls and loops and all(C.dominates(m.node, C.stmt_of(calls[0]), l) for l in loops):
-        ctx.ok("K4", "rules_up_to_equivalence connects one-way cycles before collapsing rules")
+    if calls and loops and all(C.dominates(m.node, C.stmt_of(calls[0]), l) for l in loops) and not C.guards(m.node, calls[0]):
+        ctx.ok("K4", "rules_up_to_equivalence connects one-way cycles, unconditionally, before collapsing rules")
+    elif calls and C.guards(m.node, calls[0]):
+        ctx.violation("K4", calls[0], f"connect_cycles() runs only under `{norm(C.guards(m.node, calls[0])[0][0])}`: cycles closed by a two-way edge or a merge since the last search "
+                      "are never connected, and rules between classes of one component are kept as if they were productive")
     else:
         ctx.violation("K4", m.node, "rules_up_to_equivalence must call equivdb.connect_cycles() before it collapses rules to representatives",
                       construct="RuleDBBase.rules_up_to_equivalence connect_cycles")
@@ -1154,6 +1167,127 @@ def k10_representative_freshness(ctx, K: Kinds) -> None:
                                       "connect_cycles may have changed it by then")
     if n < 4:
         ctx.floor("K10", 99)
+
+
+MERGE_EVENTS = ("rules_up_to_equivalence", "connect_cycles", "add_two_way_edge", "_set_equivalent")
+
+
+def k10b_no_stale_representative(ctx, K: Kinds) -> None:
+    """Inside the rule databases: a representative stored in a local is not used after a call
+    that may merge classes (rules_up_to_equivalence / connect_cycles / add_two_way_edge): the
+    class may have got another representative in between."""
+    P = ctx.P
+    base = P.need_class("RuleDBBase")
+    n = 0
+    for cls in P.subclasses(base):
+        for m in cls.methods.values():
+            f = m.node
+            events = [c for c in walk_local(f) if isinstance(c, ast.Call) and isinstance(c.func, ast.Attribute) and c.func.attr in MERGE_EVENTS]
+            if not events:
+                continue
+            defs = D.definitions(f)
+            for name, ds in defs.items():
+                plain = [d for d in ds if d[3] == "assign" and not d[2] and d[1] is not None]
+                if len(plain) != 1 or len(ds) != 1:
+                    continue
+                val = plain[0][1]
+                is_rep_val = any((isinstance(x, ast.Subscript) and K._is_equivdb(x.value, f)) for x in ast.walk(val))
+                if not is_rep_val:
+                    continue
+                S = plain[0][0]
+                uses = [x for x in walk_local(f) if isinstance(x, ast.Name) and x.id == name and isinstance(x.ctx, ast.Load)]
+                for ev in events:
+                    es = C.stmt_of(ev)
+                    if es is S or not C.dominates(f, S, ev):
+                        continue
+                    for u in uses:
+                        us = C.stmt_of(u)
+                        if us is es:
+                            continue
+                        n += 1
+                        if C.dominates(f, es, u):
+                            ctx.violation("K10", u, f"{m.qualname}: representative `{name}` = `{norm(val)}` is computed before `{norm(ev)[:60]}` and used after it; that call may merge "
+                                          "classes (one-way cycles are connected there), so the class may have another representative by now")
+            n += 1
+            ctx.analysed(m)
+    if n < 1:
+        ctx.floor("K10", 99)
+
+
+def k20_smallest_bisection(ctx) -> None:
+    """The smallest proof tree is found by bisection on the size bound.  Invariant: `node` is a
+    tree with len(node) <= maximum, and no tree of size < minimum exists.  The interval starts
+    at [1, len(first tree)], a successful search with bound `middle` lowers maximum to at most
+    middle (never below the size of the tree found), a failed one raises minimum to middle + 1."""
+    from ..core import pattern as PT
+    from .tablemethod import affine
+    P = ctx.P
+    m = P.need_method("RuleDBBase", "_get_smallest_node", own=True)
+    f = m.node
+    ctx.analysed(m)
+    loops = [w for w in walk_local(f) if isinstance(w, ast.While)]
+    if len(loops) != 1:
+        raise AnalysisError("K20: _get_smallest_node is no longer one bisection loop")
+    w = loops[0]
+    t = w.test
+    if not (isinstance(t, ast.Compare) and len(t.ops) == 1 and isinstance(t.ops[0], (ast.Lt, ast.Gt)) and all(isinstance(x, ast.Name) for x in (t.left, t.comparators[0]))):
+        raise AnalysisError(f"K20: loop test `{norm(t)}` not understood")
+    lo, hi = (t.left.id, t.comparators[0].id) if isinstance(t.ops[0], ast.Lt) else (t.comparators[0].id, t.left.id)
+    # the tree variable: what the function returns
+    rets = [r for r in C.returns_of(f) if r.value is not None]
+    if len(rets) != 1 or not isinstance(rets[0].value, ast.Name):
+        raise AnalysisError("K20: _get_smallest_node does not return a plain name")
+    node = rets[0].value.id
+    before = [st for st in f.body if st.lineno < w.lineno]
+    init = {}
+    for st in before:
+        tg, v = PT.assign_value(st)
+        if isinstance(tg, ast.Name) and v is not None:
+            init[tg.id] = v
+    if lo in init and isinstance(init[lo], ast.Constant) and isinstance(init[lo].value, int) and init[lo].value <= 1:
+        ctx.ok("K20", f"bisection starts with {lo} = {init[lo].value} (no tree is smaller)")
+    else:
+        ctx.violation("K20", w, f"the lower bound `{lo}` must start at 1 (or 0): a start above the true minimum makes the search skip it", construct="RuleDBBase._get_smallest_node lower start")
+    if hi in init and affine(init[hi]) == {f"len({node})": 1}:
+        ctx.ok("K20", f"bisection starts with {hi} = len({node}), the size of a tree in hand")
+    else:
+        ctx.violation("K20", init.get(hi, w), f"the upper bound `{hi}` must start at len({node}), the size of the tree already found; `{norm(init[hi]) if hi in init else '?'}` "
+                      "excludes that tree although it may be the smallest (the loop then ends with a tree that was never checked against the bound)")
+    mids = [(st, v) for st in walk_local(w) for tg, v in [PT.assign_value(st)] if isinstance(tg, ast.Name) and v is not None
+            and PT.match(PT.compile_pattern(f"({lo} + {hi}) // 2"), v) is not None or (isinstance(tg, ast.Name) and v is not None and PT.match(PT.compile_pattern(f"({hi} + {lo}) // 2"), v) is not None)]
+    if len(mids) != 1:
+        raise AnalysisError("K20: the midpoint (lo + hi) // 2 is not computed once per iteration")
+    mid = PT.assign_value(mids[0][0])[0].id
+    ctx.ok("K20", f"midpoint {mid} = ({lo} + {hi}) // 2")
+    calls = [c for c in walk_local(w) if isinstance(c, ast.Call) and norm(c.func) == "proof_tree_generator_dfs"]
+    if len(calls) != 1 or not any(k.arg == "maximum" and norm(k.value) == mid for k in calls[0].keywords):
+        ctx.violation("K20", w, f"each iteration must search for a tree with maximum={mid}", construct="RuleDBBase._get_smallest_node bound passed")
+    else:
+        ctx.ok("K20", f"the search is bounded by maximum={mid}")
+    for st in walk_local(w):
+        tg, v = PT.assign_value(st)
+        if not isinstance(tg, ast.Name) or v is None:
+            continue
+        in_handler = C.handlers_around(f, st) == [] and any(isinstance(a, ast.ExceptHandler) for a in _ancestors_until(st, w))
+        if tg.id == hi:
+            okv = norm(v) in (mid, f"len({node})", f"min({mid}, len({node}))", f"min(len({node}), {mid})")
+            if okv and not in_handler:
+                ctx.ok("K20", f"after a successful search {hi} drops to `{norm(v)}` (at most {mid}, at least the size found)")
+            else:
+                ctx.violation("K20", st, f"after finding a tree within {mid} the upper bound must become {mid}, len({node}) or their minimum; found `{norm(v)}`"
+                              + (" in the failure handler" if in_handler else ""))
+        if tg.id == lo:
+            if affine(v) == {mid: 1, "1": 1} and in_handler:
+                ctx.ok("K20", f"after a failed search {lo} rises to {mid} + 1")
+            else:
+                ctx.violation("K20", st, f"when no tree within {mid} exists the lower bound must become {mid} + 1 (in the StopIteration handler); found `{norm(v)}`")
+
+
+def _ancestors_until(node, stop):
+    cur = getattr(node, "_parent", None)
+    while cur is not None and cur is not stop:
+        yield cur
+        cur = getattr(cur, "_parent", None)
 
 
 # ------------------------------------------------------------------------ K11 / K12
